@@ -242,6 +242,38 @@ def gen_body_spec(rng, t, ncols: int | None) -> dict:
     return b
 
 
+BRACED = ["\\mathbb{R}", "\\mathbb{E}", "\\mathcal{L}", "\\mathcal{N}", "\\mathfrak{g}", "\\mathbb{Q}",
+          "\\textbf{x}", "\\mathcal{H}", "\\frac{a}{b}", "\\mathbb{N}", "\\unknowncmd{y}", "\\mathcal{Z}"]
+
+
+def add_braced(recipes: list, salt: int = 0) -> int:
+    """Braced commands (\\name{arg}) appended to texts that already bear a command: members of the same command
+    family across documents, some known to the symbol table and some not.  No draws: chosen by a hash of the text."""
+    n = 0
+
+    def fix(x):
+        nonlocal n
+        if isinstance(x, str) and "\\" in x and "{" not in x:
+            n += 1
+            return x + " " + BRACED[_h32(x, salt) % len(BRACED)]  # equal texts stay equal within a plan
+        if isinstance(x, list):
+            return [fix(y) for y in x]
+        return x
+
+    for r in recipes:
+        if r.get("kind") == "corpus":
+            continue
+        for comp in ("title", "subline", "page_header", "page_footer", "footnote", "source"):
+            c = r.get(comp)
+            if isinstance(c, dict) and "text" in c:
+                c["text"] = fix(c["text"])
+        for f in r.get("dfs") or []:
+            for col in f["cols"]:
+                if col[1] == "str":
+                    col[2] = fix(col[2])
+    return n
+
+
 def gen_text_comp(rng, t, what: str) -> dict:
     c: dict = {}
     n = rng.choice([1, 1, 2])
@@ -340,6 +372,12 @@ def gen_palette_of_specs(rng, t) -> dict:
                       "w": rng.choice([rng.randrange(1, 400), 12000, 65000]),
                       "h": rng.choice([rng.randrange(1, 400), 9000]), "seed": rng.randrange(1000)} for _ in range(3)],
     }
+    for fs in pal["figfiles"]:
+        # (no draws) some metafiles are genuine ones, some unreadable files have a name that says nothing
+        if fs["fmt"] == "emf" and fs["seed"] % 2:
+            fs["fmt"] = "emf_real"
+        elif fs["fmt"] == "raw" and fs["seed"] % 3 == 0:
+            fs["fmt"] = "odd"
     for n in ncols_choices:
         kinds = ["plain", "plain"]
         if t["group_by"] or t["page_by"] or t["subline_by"]:
@@ -722,7 +760,14 @@ def figure_bytes(fs: dict) -> bytes:
 
     rr = _r.Random(fs["seed"])
     noise = bytes(rr.randrange(256) for _ in range(40 + fs["seed"] % 50))
-    if fs["fmt"] in ("raw", "emf"):
+    if fs["fmt"] == "emf_real":
+        # a genuine (empty) enhanced metafile: ENHMETAHEADER with bounds fs['w'] x fs['h'] + EMR_EOF; any reader
+        # that really parses EMF finds a size here
+        w, h = min(fs["w"], 30000), min(fs["h"], 30000)
+        hdr = struct.pack("<II4i4iIIIIHHIII2i2i", 1, 88, 0, 0, w, h, 0, 0, int(w * 26.46), int(h * 26.46),
+                          0x464D4520, 0x10000, 108 + len(noise) // 4 * 4, 2, 1, 0, 0, 0, 0, 1024, 768, 270, 203)
+        return hdr + struct.pack("<IIIII", 14, 20, 0, 20, 20)
+    if fs["fmt"] in ("raw", "emf", "odd"):
         return noise  # no signature: pixel size cannot be read (fallback path of the encoder)
     if fs["fmt"] == "png":
         base = bytearray(_real_image("png"))
@@ -754,8 +799,11 @@ def figure_bytes(fs: dict) -> bytes:
 def figure_paths(recipe: dict, figdir: str) -> list:
     out = []
     for i, fs in enumerate(recipe["figure"]["files"]):
-        ext = {"png": "png", "raw": "png", "emf": "emf"}.get(fs["fmt"], "jpg")
+        ext = {"png": "png", "raw": "png", "emf": "emf", "emf_real": "emf"}.get(fs["fmt"], "jpg")
         name = f"fig_{digest(fs)[:10]}.{ext}"
+        if fs["fmt"] == "odd":
+            # a name whose extension says nothing (or nothing at all) and content that is no known image
+            name = f"fig_{digest(fs)[:10]}" + ("", ".dat", ".bin")[fs["seed"] % 3]
         p = os.path.join(figdir, name)
         if not os.path.exists(p):
             with open(p, "wb") as fh:
